@@ -34,6 +34,19 @@ STRUCT_T = absyn.t_struct("SC", [absyn.field("a", absyn.t_int("uint16")), absyn.
                                  absyn.field("y", absyn.t_int("uint16"), 12), absyn.field("e", absyn.t_arr(absyn.t_int("uint24"), absyn.L_fixed(2)))])
 
 
+# a structure whose members are read element by element (null-terminated arrays): another code path of the scalar codecs
+DYN_T = absyn.t_struct("SD", [absyn.field("n", absyn.t_int("uint16")), absyn.field("z", absyn.t_arr(absyn.t_int("uint32"), {"k": "null"})),
+                              absyn.field("s", absyn.t_arr(absyn.t_wchar(), {"k": "null"})), absyn.field("q", absyn.t_arr(absyn.t_int("int16"), {"k": "null"}))])
+STRUCTS = {"SC": STRUCT_T, "SI": STRUCT_T, "SD": DYN_T, "SJ": DYN_T}
+
+
+def project_form(v, T):
+    """Value of an array form of a built-in name: char arrays are bytes, wchar arrays str, everything else a list."""
+    if isinstance(v, (bytes, str)):
+        return generic_project(v, T)
+    return {"k": "list", "items": [generic_project(x, T) for x in v]}
+
+
 def gen_bytes(rnd, n):
     r = rnd.random()
     if r < 0.5:
@@ -52,7 +65,10 @@ def history(rnd, first_id, nev=14):
     sdef = absyn.render(STRUCT_T)
     cs.load(sdef, compiled=True)
     cs.load(sdef.replace("SC", "SI"), compiled=False)
-    names = [n for n in cs.typedefs if n not in ("SC", "SI")]
+    ddef = absyn.render(DYN_T)
+    cs.load(ddef, compiled=True)
+    cs.load(ddef.replace("SD", "SJ"), compiled=False)
+    names = [n for n in cs.typedefs if n not in STRUCTS]
     last = {}
     rid = first_id
     for _ in range(nev):
@@ -63,29 +79,51 @@ def history(rnd, first_id, nev=14):
             events.append({"ev": "SetEndian", "endian": e})
             continue
         use_struct = rnd.random() < 0.25
-        name = rnd.choice(["SC", "SI"]) if use_struct else rnd.choice(names)
-        T = cs.resolve(name)
+        name = rnd.choice(list(STRUCTS)) if use_struct else rnd.choice(names)
+        T = E = cs.resolve(name)
         base = {"id": rid, "name": name, "align": False, "ptr": 8}
+        form = None
         if use_struct:
-            base["type"] = dict(STRUCT_T, name=name)
-        if r < 0.75 or name not in last:
-            n = (T.size if T.size is not None else rnd.randrange(1, 5)) + rnd.randrange(0, 2)
-            data = gen_bytes(rnd, n)
-            if T.size is None:   # LEB128: make termination likely
-                data = bytes(b | 0x80 for b in data[:-1]) + bytes([data[-1] & 0x7F]) if rnd.random() < 0.7 else data
+            base["type"] = dict(STRUCTS[name], name=name)
+        elif name != "void" and rnd.random() < 0.3:
+            # the same name as T[n] / T[None] (null-terminated): arrays take other paths through the codecs than single values
+            form = {"k": "fixed", "n": rnd.randrange(1, 4)} if rnd.random() < 0.5 else {"k": "null"}
+            base["form"] = form
+            T = E[form["n"]] if form["k"] == "fixed" else E[None]
+        key = (name, str(form))
+        if r < 0.75 or key not in last:
+            if use_struct and T.size is None:
+                # n, elements of z, terminator, characters of s, terminator, elements of q, terminator (zeros in the random part end an array earlier)
+                data = gen_bytes(rnd, 2 + 4 * rnd.randrange(0, 3)) + bytes(4) + gen_bytes(rnd, 2 * rnd.randrange(0, 3)) + bytes(2) \
+                    + gen_bytes(rnd, 2 * rnd.randrange(0, 3)) + bytes(2 if rnd.random() < 0.9 else 1)
+            elif form is not None:
+                esz = E.size if E.size is not None else 1
+                k = form["n"] if form["k"] == "fixed" else rnd.randrange(0, 3)
+                data = gen_bytes(rnd, esz * k)
+                if E.size is None:
+                    data = bytes(b | 0x80 for b in data)  # k LEB128 groups that never terminate early ...
+                    data = bytes(x if (i + 1) % 2 else x & 0x7F for i, x in enumerate(data)) if rnd.random() < 0.7 else data
+                if form["k"] == "null":
+                    data += bytes(esz if rnd.random() < 0.9 else max(esz - 1, 0))
+                data += bytes(rnd.randrange(0, 2))
+            else:
+                n = (T.size if T.size is not None else rnd.randrange(1, 5)) + rnd.randrange(0, 2)
+                data = gen_bytes(rnd, n)
+                if T.size is None:   # LEB128: make termination likely
+                    data = bytes(b | 0x80 for b in data[:-1]) + bytes([data[-1] & 0x7F]) if rnd.random() < 0.7 else data
             st = io.BytesIO(data)
-            ev = dict(base, ev="Read", input=list(data), size=T.size if T.size is not None else -1, alignment=T.alignment or 1)
+            ev = dict(base, ev="Read", input=list(data), size=E.size if E.size is not None else -1, alignment=E.alignment or 1)
             try:
                 v = T.read(st)
-                p = absyn.project(v, base["type"]) if use_struct else generic_project(v, T)
+                p = absyn.project(v, base["type"]) if use_struct else (project_form(v, E) if form else generic_project(v, T))
                 ev.update(status="ok", v=p, pos=st.tell())
-                last[name] = (v, p)
+                last[key] = (v, p)
             except Exception as e:  # noqa: BLE001
                 ev.update(status=codec.classify(e), v=codec.NONE_V, pos=0, exc=f"{type(e).__name__}: {e}"[:120])
             events.append(ev)
         else:
-            v, p = last[name]
-            misfit = (not use_struct) and p.get("k") == "int" and rnd.random() < 0.3
+            v, p = last[key]
+            misfit = (not use_struct) and form is None and p.get("k") == "int" and rnd.random() < 0.3
             if misfit:
                 big = (1 << (8 * (T.size or 2))) + rnd.randrange(3) if rnd.random() < 0.5 else -(1 << (8 * (T.size or 2))) - 1
                 v, p = big, absyn.pint(big)
